@@ -44,6 +44,22 @@ class VThread:
         sched._tls.vt = self
         self.go.acquire()
         try:
+            if sched.line_files:
+                import sys
+
+                files = sched.line_files
+
+                def local(frame, event, arg):
+                    if event == "line" and not sched.abort:
+                        sched.point(("line", frame.f_lineno), None)
+                    return local
+
+                def tracer(frame, event, arg):
+                    if frame.f_code.co_filename in files:
+                        return local
+                    return None
+
+                sys.settrace(tracer)
             if not sched.abort:
                 self.fn(self)
         except Abort:
@@ -85,6 +101,7 @@ class Sched:
         self.record_trace = False
         self.release_points = False
         self.deadlock_hook = None
+        self.line_files = ()  # file names whose every source line is a scheduling point (unsynchronised accesses)
         self.spurious_left = 0
         self.spurious_used = 0
 
